@@ -44,3 +44,20 @@ pub use crate::types::{InflightBlocks, InflightState};
 /// and reach the crate-private relay verifiers from an external harness
 #[cfg(ckb_verif)]
 pub use crate::relayer::{ReconstructionResult, verif_hooks as relayer_verif_hooks};
+
+/// verification hook (off unless built with `--cfg ckb_verif`): the guards that `Synchronizer::received` /
+/// `Relayer::received` apply to compatibly decoded `SendBlock` / `CompactBlock` messages
+#[cfg(ckb_verif)]
+pub mod received_guards {
+    use ckb_types::packed;
+
+    /// see `synchronizer::is_malformed_send_block`
+    pub fn is_malformed_send_block(reader: &packed::SendBlockReader<'_>) -> bool {
+        crate::synchronizer::is_malformed_send_block(reader)
+    }
+
+    /// see `relayer::is_malformed_compact_block`
+    pub fn is_malformed_compact_block(reader: &packed::CompactBlockReader<'_>) -> bool {
+        crate::relayer::is_malformed_compact_block(reader)
+    }
+}
